@@ -1075,6 +1075,7 @@ def main(run):
     failing = run.correspond("all", "C06", terms, cases, check=gen_check, requires=reqs)
     if gen_check == "check_both" and (failing or run.corr_groups.get("all", {}).get("errors")):
         # which of the two disagrees with the implementation?
+        traces = run.traces
         try:
             sub = failing[:200]
             bad_model = run.correspond("diagnosis_model", "C06", [terms[i] for i in sub], [cases[i] for i in sub], check="check")
@@ -1084,8 +1085,14 @@ def main(run):
                              % (len(sub), len(bad_model), len(bad_gen)))
         except Exception as e:  # noqa
             run.notes.append("diagnosis step failed: %r" % (e,))
+        # the diagnosis repeats cases that are already counted
+        run.traces = traces
+        for g in ("diagnosis_model", "diagnosis_regenerated"):
+            run.corr_groups.pop(g, None)
+        run.disagreements = [d for d in run.disagreements if d.get("group") not in ("diagnosis_model", "diagnosis_regenerated")]
     elif gen_check == "check" and ok:
         # translated but not provably the model: do the regenerated definitions at least agree with the implementation?
+        traces = run.traces
         try:
             rc, out = vlib.coqc_file(GEN, cwd=vlib.COQ)
             if rc == 0:
@@ -1099,3 +1106,4 @@ def main(run):
                 run.notes.append("diagnosis: the regenerated definitions do not compile: " + out[-400:])
         except Exception as e:  # noqa
             run.notes.append("diagnosis step failed: %r" % (e,))
+        run.traces = traces
